@@ -14,7 +14,7 @@ from valida import callables as call_funcs
 from valida.errors import (
     InvalidCallable,
     MalformedConditionLikeSpec,
-    MalformedDataPathSpec,
+    NotADataPathSpec,
 )
 from valida.utils import (
     classproperty,
@@ -482,19 +482,19 @@ class ConditionLike:
             if isinstance(spec_val, dict):
                 try:
                     spec_val = valida.datapath.DataPath.from_spec(spec_val)
-                except MalformedDataPathSpec:
+                except NotADataPathSpec:
                     # Check values for DataPath specs:
                     for k, v in spec_val.items():
                         try:
                             spec_val[k] = valida.datapath.DataPath.from_spec(v)
-                        except MalformedDataPathSpec:
+                        except NotADataPathSpec:
                             pass
             elif isinstance(spec_val, (list, tuple)):
                 # Check items for DataPath specs:
                 for idx, v in enumerate(spec_val):
                     try:
                         spec_val[idx] = valida.datapath.DataPath.from_spec(v)
-                    except MalformedDataPathSpec:
+                    except NotADataPathSpec:
                         pass
 
             # invoke the condition method to construct the Condition object:
